@@ -41,7 +41,7 @@ REQUIRED_PROBES = {"quick": ["unused_vtimezone_present", "unknown_id_used", "cus
                              "amz_added", "amz_skipped_unknown", "nested_depth3", "multi_valued_entry",
                              "roundtrip", "restart_made_id_unknown", "duplicate_vtimezone", "tzidless_vtimezone",
                              "windows_id", "slash_prefixed_id", "narrow_window", "zoned_property_removed",
-                             "zoned_property_replaced", "tzid_parameter_edited_in_place"]}
+                             "zoned_property_replaced", "tzid_parameter_edited_in_place", "window_given_as_datetime"]}
 REQUIRED_PROBES["thorough"] = REQUIRED_PROBES["quick"]
 
 IANA = ["Europe/Berlin", "America/New_York", "Asia/Kolkata"]
@@ -243,7 +243,8 @@ def generate(rng, cfg):
                 window = [[y, rng.randint(1, 12), 1], [y + rng.choice([0, 0, 1, 5]), rng.randint(1, 12), 28]]
                 if window[1] < window[0]:
                     window[1] = window[0]
-            trace.append([c, "amz", {"window": window}])
+            wkind = rng.choice(["date", "date", "naive-dt", "aware-zi", "aware-pytz"]) if window else "date"
+            trace.append([c, "amz", {"window": window, "wkind": wkind}])
             for t in sorted(m_missing(root), key=POOL.index):
                 if t != "Nowhere/Unknown":
                     nid = next_id[0]
@@ -677,7 +678,16 @@ def _amz(res, stepno, K, a):
     snap_before = snap_component(cal)
     kwargs = {}
     if a["window"]:
-        kwargs = {"first_date": date(*a["window"][0]), "last_date": date(*a["window"][1])}
+        wk = a.get("wkind", "date")
+        if wk == "date":
+            lo, hi = date(*a["window"][0]), date(*a["window"][1])
+        else:
+            # "a datetime that is earlier than anything that happens in the calendar": e.g. event.start
+            tzs = {"naive-dt": None, "aware-zi": ["zi", "Europe/Berlin"], "aware-pytz": ["pytz", "America/New_York"]}[wk]
+            lo = to_py(["dt", *a["window"][0], 0, 0, 0, tzs])
+            hi = to_py(["dt", *a["window"][1], 0, 0, 0, tzs])
+            res.probe("window_given_as_datetime")
+        kwargs = {"first_date": lo, "last_date": hi}
         res.probe("narrow_window")
     try:
         cal.add_missing_timezones(**kwargs)
